@@ -96,6 +96,7 @@ type c17Identity struct {
 	hasIdent bool
 	idType   byte
 	rid      []byte
+	noSens   bool // GeneralDeviceCapabilities without any ReceiveSensitivityTableEntry (not conformant: 1-n)
 }
 
 func (id c17Identity) configResp() []byte {
@@ -109,9 +110,13 @@ func (id c17Identity) configResp() []byte {
 func (id c17Identity) capsResp() []byte {
 	p := c17StatusOK()
 	if id.hasCaps {
+		sens := c17TLV(c17ParReceiveSensitivityTableEntr, c17U16(1), c17U16(10))
+		if id.noSens {
+			sens = nil
+		}
 		p = append(p, c17TLV(c17ParGeneralDeviceCapabilities,
 			c17U16(4), c17U16(0x4000), c17U32(id.vendor), c17U32(id.model), c17U16(len(id.fw)), id.fw,
-			c17TLV(c17ParReceiveSensitivityTableEntr, c17U16(1), c17U16(10)),
+			sens,
 			c17TLV(c17ParGPIOCapabilities, c17U16(4), c17U16(4)))...)
 	}
 	return p
@@ -149,6 +154,7 @@ type c17Host struct {
 //   correct-v11      as correct, but claim LLRP 1.1 support so that the client sends SET_PROTOCOL_VERSION
 //   correct-errver   as correct, but answer GET_SUPPORTED_VERSION with ERROR_MESSAGE/M_UnsupportedVersion (a 1.0.1 reader)
 //   config-error     answer GET_READER_CONFIG with a non-success status and no identification
+//   correct-nosens   as correct, but GeneralDeviceCapabilities carries no ReceiveSensitivityTableEntry
 func c17NewHost(addr, mode string, id c17Identity) (*c17Host, error) {
 	var ln net.Listener
 	var err error
@@ -393,6 +399,9 @@ func c17Name(f []string, h *c17Host) string {
 	mode := "correct"
 	if len(f) > 8 {
 		mode = f[8]
+	}
+	if mode == "correct-nosens" {
+		id.noSens = true
 	}
 	h.setScript(mode, id)
 	type res struct {
